@@ -254,4 +254,35 @@ theorem rangeLen_events (n : Nat) : Impl.rangeLen 7 (6 + n + 1) 1 = n := by
 theorem b2n_eq : Impl.b2n = PduSpec.b2n := by funext b; cases b <;> rfl
 theorem truthy_eq : Impl.truthy = PduSpec.truthy := by funext b; rfl
 
+theorem spec_packBits_pad (l : List Bool) :
+    PduSpec.packBits (l ++ List.replicate (8 * nbytes l.length - l.length) false) = PduSpec.packBits l := by
+  induction hn : l.length using Nat.strongRecOn generalizing l with
+  | _ n ih =>
+    subst hn
+    by_cases h0 : l = []
+    · subst h0; simp [nbytes, spec_packBits_nil]
+    · have hpos : 0 < l.length := List.length_pos_iff.2 h0
+      by_cases h8 : 8 ≤ l.length
+      · have hne : l ++ List.replicate (8 * nbytes l.length - l.length) false ≠ [] := by simp [h0]
+        rw [spec_packBits_cons _ hne, spec_packBits_cons l h0]
+        have ht : (l ++ List.replicate (8 * nbytes l.length - l.length) false).take 8 = l.take 8 := by
+          rw [List.take_append]; simp; omega
+        have hd : (l ++ List.replicate (8 * nbytes l.length - l.length) false).drop 8 =
+            l.drop 8 ++ List.replicate (8 * nbytes (l.drop 8).length - (l.drop 8).length) false := by
+          rw [List.drop_append]
+          have e : 8 - l.length = 0 := by omega
+          have e2 : 8 * nbytes (l.drop 8).length - (l.drop 8).length = 8 * nbytes l.length - l.length := by
+            simp only [List.length_drop]; unfold nbytes; omega
+          rw [e, List.drop_zero, e2]
+        rw [ht, hd, ih (l.drop 8).length (by simp; omega) (l.drop 8) rfl]
+      · have e : 8 * nbytes l.length - l.length = 8 - l.length := by unfold nbytes; omega
+        rw [e]
+        have hne : l ++ List.replicate (8 - l.length) false ≠ [] := by simp [h0]
+        rw [spec_packBits_cons _ hne, spec_packBits_cons l h0]
+        have ht : (l ++ List.replicate (8 - l.length) false).take 8 = l ++ List.replicate (8 - l.length) false := by
+          apply List.take_of_length_le; simp; omega
+        have hd : (l ++ List.replicate (8 - l.length) false).drop 8 = [] := by
+          apply List.drop_of_length_le; simp; omega
+        rw [ht, hd, List.take_of_length_le (by omega), List.drop_of_length_le (by omega), byteOfBits_pad]
+
 end Pymodbus
